@@ -207,5 +207,8 @@ def inv_state(prog, cls, model, st0, ref, pairs, offsets=None):
             cell.fields[name] = Sym("self." + name, "int")
         elif isinstance(v, (BitV, Lin)):
             cell.fields[name] = Sym("self." + name, "int")
+    for r, info in regmap.REGS.items():
+        if r not in regs:
+            regs[r] = old_reg(r) if info[1] == 1 else Bytes([(("reg", r), Const(info[1]))], "bytearray")
     st.extra["regs"] = regs
     return st
